@@ -381,6 +381,9 @@ fn run_script(t0: &Spec, ops: &[Op], ctx: &Ctx, probes: &[u64], oracle: &mut Vec
     } else if !has_neg(&spec) && len.is_some() {
         oracle.push("len() is Some although row_ids() is None".into());
     }
+    if len == Some(0) && !t.is_empty() && !spec.iter().any(|(f, s)| matches!(s, Sel::Pos(v) if v.is_empty()) && (t0.iter().any(|(g, r)| g == f && r == s) || ops.iter().any(|o| matches!(o, Op::InsertBitmap(g, b) if g == f && b == s) || matches!(o, Op::Or(sp) if sp.iter().any(|(g, r)| g == f && r == s))))) {
+        oracle.push("is_empty() is false although len() is Some(0) and no empty bitmap was put in by the inputs".into());
+    }
     let cont: Vec<bool> = probes.iter().map(|x| t.contains(*x)).collect();
     Ok((spec, rets, len, t.is_empty(), ids, cont))
 }
@@ -473,6 +476,8 @@ pub fn corpus_ops() -> Vec<(&'static str, Spec, Vec<Op>)> {
     v.push(("corpus:explicit empty bitmap and set ops", vec![(1, Sel::Pos(vec![])), (2, Sel::Pos(vec![3]))], vec![Op::Or(vec![(1, Sel::Pos(vec![])), (5, Sel::Pos(vec![]))]), Op::And(vec![(1, Sel::Full), (2, Sel::Pos(vec![3])), (5, Sel::Full)]), Op::Sub(vec![(2, Sel::Pos(vec![4]))])]));
     // the rarely hit arms that need RoaringBitmap::full(): remove from a Full fragment, Full - Partial
     v.push(("corpus:remove from Full fragment", vec![(1, Sel::Full)], vec![Op::Remove((1 << 32) | 7), Op::Insert((1 << 32) | 7), Op::Remove((1 << 32) | 8), Op::And(vec![(1, Sel::Pos(vec![7, 8, 9]))])]));
+    // regression input of 7f76aa9: Full minus a bitmap holding all 2^32 offsets used to leave an empty entry (is_empty() false)
+    v.push(("corpus:7f76aa9 Full - whole bitmap", vec![(7, Sel::Full)], vec![Op::Sub(vec![(7, Sel::Neg(vec![]))])]));
     v.push(("corpus:Full - Partial", vec![(1, Sel::Full), (2, Sel::Pos(vec![1, 2]))], vec![Op::Sub(vec![(1, Sel::Pos(vec![0, 70000])), (2, Sel::Full)]), Op::Or(vec![(1, Sel::Pos(vec![0]))])]));
     v
 }
@@ -616,11 +621,8 @@ fn setops_case(sink: &mut Sink, s: &mut Stream, kind: &str, a: &Spec, b: &Spec, 
                     }
                 }
             }
-            // KNOWN_FINDINGS class: Full minus a bitmap holding all 2^32 offsets leaves an empty bitmap entry
-            let whole = a.iter().any(|(f, s)| matches!(s, Sel::Full) && b.iter().any(|(g, r)| g == f && matches!(r, Sel::Neg(v) if v.is_empty())));
             match bad {
                 None => sink.oracle_ok(),
-                Some(w) if whole && w.starts_with("a - b holds an empty bitmap") => sink.oracle_fail(Some("Known_C21_full_minus_whole_bitmap"), &format!("RowIdTreeMap set algebra: {w}"), human.clone()),
                 Some(w) => sink.oracle_fail(None, &format!("RowIdTreeMap set algebra: {w}"), human.clone()),
             }
             let out = format!("({}, {}, {}, {}, {})", coq_tm(&specs[0]), coq_tm(&specs[1]), coq_tm(&specs[2]), coq_tm(&specs[3]), coq_tm(&specs[4]));
@@ -635,7 +637,8 @@ pub fn run_setops(args: &Args, sink: &mut Sink, rng: &mut Rng, budget: &mut Full
     s.shard = 350;
     // corpus
     setops_case(sink, &mut s, "corpus:Full-Partial", &vec![(0, Sel::Full), (1, Sel::Pos(vec![1, 2]))], &vec![(0, Sel::Pos(vec![5])), (1, Sel::Full)], budget);
-    // known finding (thorough only: two full bitmaps): {7: Full} - {7: Partial(all 2^32 offsets)} keeps an empty entry
+    // regression input of 7f76aa9 (thorough only here: several full bitmaps; the quick tier has it in the ops corpus):
+    // {7: Full} - {7: Partial(all 2^32 offsets)} used to keep an empty entry
     if args.thorough() {
         setops_case(sink, &mut s, "corpus:Full - whole bitmap", &vec![(7, Sel::Full)], &vec![(7, Sel::Neg(vec![]))], budget);
     }
